@@ -150,7 +150,13 @@ def c20_1(ctx, ss, rid=lambda r: r):
         # C20.3: rebind through cls
         for st in resets:
             tg = [t for t in getattr(st, "targets", []) if isinstance(t, ast.Attribute)]
-            if tg and txt(tg[0].value) != "cls":
+            if isinstance(st, ast.Expr):
+                # `.clear()` empties the object in place: a subclass that has not bound its own set yet clears the BASE class's set, and
+                # the in-place `cls.x |= {…}` that follows binds that same object on the subclass -- all reader classes end up sharing one set
+                ctx.violation(rid("C20.3"), k + " :: via-cls", where(ff, st),
+                              f"`{txt(st)}` empties the inherited `{attr}` in place instead of binding a fresh one through cls: every reader class keeps adding to "
+                              "the same shared set, so what one class read shows up in another class's tables")
+            elif tg and txt(tg[0].value) != "cls":
                 ctx.violation(rid("C20.3"), k + " :: via-cls", where(ff, st),
                               f"`{txt(st)}` resets the attribute on the base class only: a reader subclass that already got its own `{attr}` (through `cls.{attr} = …` / `cls.{attr} |= …` in an earlier read) keeps the old value")
             elif tg:
